@@ -701,6 +701,32 @@ def run(chk):
             fol_cases.append((tight, tree))
             if thorough:
                 fol_cases.append((" \n".join(toks), tree))
+    # operands that may be followed DIRECTLY by a traversal (token flag CheckForPostTraverse): every parameterised /
+    # nullary spelling x every suffix kind, against the bracketed form (op) SUFFIX (model-free oracle)
+    post_ops = ["parent", "parent(2)", "parent(0)", "flatten", "flatten(2)", "keys", "sort", "reverse", "unique", "to_entries", "toEntries",
+                "split_doc", "splitDoc", "path", "pivot", "shuffle", "env(HOME)", "strenv(HOME)", "$x", "sort_by(.a)", "sortKeys(.)", "with(.a; .b)",
+                "select(.a)", "map(.a)", "split(\",\")", "group_by(.a)", "unique_by(.a)", "pick([\"a\"])", "explode(.)", "load(\"f\")", "eval(.a)",
+                "delpaths([])", "map_values(.)", "filter(.a)", "omit([\"a\"])", ".a", ".\"a b\"", "(.a)", "[.a]", "{\"k\": 1}"]
+    suffixes = [".x", "[0]", "[]", ".x?", "[0]?", ".x.y", ".x[0]", "[0].x", "[\"k\"]", ".[0]", ".\"x y\""]
+    pair_cases = []
+    for op in post_ops:
+        for suf in suffixes:
+            for sep in ("", " ", "\n"):
+                if sep == "" and op[0] in ".$" and op[-1] not in ")]}\"" and suf[0] not in ".[":
+                    continue
+                pair_cases.append((op + sep + suf, "(" + op + ")" + suf))
+    presp2 = vlib.yqh_parallel(parse_reqs([x for pc in pair_cases for x in pc]))
+    npost = 0
+    for k, (direct, bracketed) in enumerate(pair_cases):
+        a, b = impl_class(presp2[2 * k]), impl_class(presp2[2 * k + 1])
+        chk.count(("post", direct), nontrivial=True)
+        dist["post-traverse"] = dist.get("post-traverse", 0) + 1
+        if a != b or a.startswith(("ERR", "PANIC", "TIMEOUT")):
+            npost += 1
+            if npost <= 4:
+                chk.violation({"kind": "tree", "expr": direct, "spelling": "operand-then-suffix", "layout": "direct", "expected": b, "impl": a,
+                               "bracketed": bracketed}, True, "an operand followed directly by a traversal suffix does not parse like its bracketed form")
+    chk.extra["post_traverse_cases"] = len(pair_cases)
     fresp = vlib.yqh_parallel(parse_reqs([c[0] for c in fol_cases]))
     nfol = 0
     fol_impl = []
@@ -731,6 +757,8 @@ def run(chk):
     for i, c in enumerate(cases):
         # quick tier: the exhaustive operator-pair families go to the model one in three (all of them to the implementation)
         add_model(c[4], impl[i], thorough or terms[c[0]][1] not in ("pair", "opfn") or i % 5 == 0)
+    for k, (direct, bracketed) in enumerate(pair_cases):
+        add_model(direct, impl_class(presp2[2 * k]), thorough or k % 3 == 0)
     for k, ((text, ex), im) in enumerate(zip(fol_cases, fol_impl)):
         add_model(text, im, thorough or k % 3 == 0 or text.startswith(("del", "has")))
 
